@@ -245,7 +245,7 @@ def _replay(ob):
 
     from ujvc.z3env import REPO_SRC
 
-    p = subprocess.run(["/venv/bin/python", "-c", F4_SCRIPT], env=dict(os.environ, PYTHONPATH=REPO_SRC), capture_output=True, text=True, timeout=120)
+    p = __import__('ujvc.units', fromlist=['run_native_p']).run_native_p(["/venv/bin/python", "-c", F4_SCRIPT], env=dict(os.environ, PYTHONPATH=REPO_SRC), timeout=120)
     return {"reproduced": p.returncode == 1, "detail": (p.stdout + p.stderr)[-2000:], "script": F4_SCRIPT}
 
 
@@ -298,7 +298,7 @@ def _replay19(ob):
         f.write(C19_SCRIPT)
         path = f.name
     try:
-        p = subprocess.run(["/venv/bin/python", path], env=dict(os.environ, PYTHONPATH=REPO_SRC), capture_output=True, text=True, timeout=120)
+        p = __import__('ujvc.units', fromlist=['run_native_p']).run_native_p(["/venv/bin/python", path], env=dict(os.environ, PYTHONPATH=REPO_SRC), timeout=120)
     finally:
         os.unlink(path)
     return {"reproduced": p.returncode == 1, "detail": (p.stdout + p.stderr)[-2000:], "script": C19_SCRIPT}
@@ -404,7 +404,7 @@ def _replay19b(ob=None):
         f.write(C19_BOUNDED_SCRIPT)
         path = f.name
     try:
-        p = subprocess.run(["/venv/bin/python", path], env=dict(os.environ, PYTHONPATH=REPO_SRC), capture_output=True, text=True, timeout=300)
+        p = __import__('ujvc.units', fromlist=['run_native_p']).run_native_p(["/venv/bin/python", path], env=dict(os.environ, PYTHONPATH=REPO_SRC), timeout=300)
     finally:
         os.unlink(path)
     return {"reproduced": p.returncode == 1, "detail": (p.stdout + p.stderr)[-3000:], "script": C19_BOUNDED_SCRIPT, "rc": p.returncode}
@@ -423,7 +423,8 @@ def _c19_bounded(ctx):
 unit("tracebacks.native[bounded]", props=["C19"],
      functions=[(TB, "get_stack_frame"), (TB, "render_symbolic_traceback"), ("_plan.py", "Plan._call"), ("_plan.py", "Plan._gather"), ("_plan.py", "Plan._gather.<locals>.recurse"),
                 ("_plan.py", "Plan.call"), ("_plan.py", "Plan.gather"), ("_plan.py", "Plan.unpack"), ("_registry.py", "Registry.add"), ("_registry.py", "Registry.source"),
-                (ER, "CallError.__init__"), (ER, "create_chained_call_error")],
+                (ER, "CallError.__init__"), (ER, "create_chained_call_error"), ("_execution/run_physical.py", "prep_run_physical.<locals>.process"),
+                ("_transformations/caching.py", "_get_stale_nodes.<locals>.process_with_callbacks"), ("_transformations/caching.py", "_add_value_store"), ("_run.py", "run")],
      assumptions=["bounded stand-in: see the script in contracts/tracebacks.py"], min_obligations=2, kind="bounded")(_c19_bounded)
 
 REPLAYS = [("tracebacks.CallError*", _replay), ("tracebacks.native*", _replay19b), ("tracebacks.*", _replay19)]
